@@ -136,11 +136,15 @@ def fresh_digests(ctx, calls, cache, repeat=1):
 
 
 def run_histories(ctx, hists, al_by_key, threads):
-    """hists: list of [(f,p,sig)]; one process per history"""
+    """hists: list of [(f,p,sig)]; threads: int or list of ints (one per history); one process per history,
+    all in one 16-process pool"""
+    if isinstance(threads, int):
+        threads = [threads] * len(hists)
     jobs = []
     for k, h in enumerate(hists):
-        jobs.append({"hid": k, "threads": threads, "calls": [al_by_key[x] for x in h]})
-    res = alias_run.run_pool("hist_worker", [[j] for j in jobs], env={"NUMBA_NUM_THREADS": str(threads)})
+        jobs.append({"hid": k, "threads": threads[k], "calls": [al_by_key[x] for x in h]})
+    res = alias_run.run_pool("hist_worker", [[j] for j in jobs],
+                             envs=[{"NUMBA_NUM_THREADS": str(t)} for t in threads])
     out = []
     for j, r in zip(jobs, res):
         r = r[0]
@@ -148,6 +152,36 @@ def run_histories(ctx, hists, al_by_key, threads):
             raise core.MachineryError("hist_worker failed on history %s:\n%s" % (j["hid"], r["machinery_error"]))
         out.append(r)
     return out
+
+
+def run_all(ctx, fresh_calls, repeat, hists, threads, al_by_key):
+    """fresh-interpreter references and history replays in ONE 16-process pool (longest first).
+    -> (cache {c: digest}, history results in the order of `hists`)"""
+    fresh_calls = sorted(fresh_calls, key=lambda a: -a["cost"])
+    fparts = [[{"hid": -1, "threads": 1, "calls": [a]}] for _ in range(repeat) for a in fresh_calls]
+    hjobs = [{"hid": k, "threads": threads[k], "calls": [al_by_key[x] for x in h]} for k, h in enumerate(hists)]
+    parts = [[j] for j in hjobs] + fparts          # histories are the long jobs: start them first
+    envs = [{"NUMBA_NUM_THREADS": str(j["threads"])} for j in hjobs] + [{"NUMBA_NUM_THREADS": "1"}] * len(fparts)
+    res = alias_run.run_pool("hist_worker", parts, envs=envs)
+    cache = {}
+    for part, r in zip(parts[len(hjobs):], res[len(hjobs):]):
+        a, r = part[0]["calls"][0], r[0]
+        if "machinery_error" in r:
+            raise core.MachineryError("hist_worker (fresh) failed on %s:\n%s" % (a["c"], r["machinery_error"]))
+        e = r["events"][0]
+        d = ("raised:" + e["err"].split(":")[0]) if e["raised"] else e["digest"]
+        if a["c"] in cache and cache[a["c"]] != d and a["f"] not in UNSEEDED:
+            ctx.violation("%s:fresh-interpreters-disagree" % a["f"], "result_differs_from_fresh_interpreter",
+                          {"call": a, "digests": [cache[a["c"]], d]}, "two fresh interpreters, same call")
+        cache[a["c"]] = d
+        ctx.evaluations += 1
+    out = []
+    for j, r in zip(hjobs, res[:len(hjobs)]):
+        r = r[0]
+        if "machinery_error" in r:
+            raise core.MachineryError("hist_worker failed on history %s:\n%s" % (j["hid"], r["machinery_error"]))
+        out.append(r)
+    return cache, out
 
 
 def to_case(r, cache, al_by_c):
@@ -266,8 +300,8 @@ def replay_part(ctx, rng, focus):
         al = [a for a in al if a["f"] in focus or a["c"] in ("bump|dflt|f8n", "slope|dflt|f4n", "binary|dflt|f8n")]
     by_key = {(a["f"], a["p"], a["sig"]): a for a in al}
     by_c = {a["c"]: a for a in al}
-    depth = ctx.pick(14, 24)
-    nsim = ctx.pick(16, 320)
+    depth = ctx.pick(14, 20)
+    nsim = ctx.pick(16, 240)
     files = ctx.simulate("History", dict(spec="Spec", constants=concrete_constants(al, depth)), "histories",
                          num=nsim, depth=depth + 1)
     hists = []
@@ -285,40 +319,48 @@ def replay_part(ctx, rng, focus):
                                    "perlin|v2|f4n", "bump|dflt|f8n", "polygonize|dflt|i4n", "polygonize|dflt|f8n")]
         res = ctx.model_check("History", dict(spec="Spec", invariants=["TypeOK", "Dump"],
                                               constants=concrete_constants(small, 2)), "enumerate_pairs", workers=1)
-        for m in re.finditer(r'<<"HIST", <<(.*?)>>\s*>>', res.out, re.S):
-            h = re.findall(r'<<"([^"]*)", "([^"]*)", "([^"]*)">>', m.group(1))
+        for m in re.finditer(r'"HIST",\s*"([^"]*)"', res.out, re.S):
+            h = [tuple(x.split("|")) for x in m.group(1).split(";")]
             if len(h) == 2:
-                pair_hists.append([tuple(x) for x in h])
+                pair_hists.append(h)
         pair_hists = sorted(set(map(tuple, pair_hists)))
         if len(pair_hists) != len(small) ** 2:
             raise core.MachineryError("expected %d ordered pairs from TLC, got %d" % (len(small) ** 2, len(pair_hists)))
         pair_hists = [list(h) for h in pair_hists]
 
-    cache = {}
     used = sorted({x for h in hists + pair_hists for x in h})
-    fresh_digests(ctx, [by_key[x] for x in used], cache, repeat=ctx.pick(1, 2))
     ctx.extra["alphabet"] = len(al)
-    ctx.extra["distinct_calls_with_fresh_reference"] = len(cache)
 
-    def replay(hs, threads, name):
-        results = run_histories(ctx, hs, by_key, threads)
+    def judge(results, name):
         cases = [to_case(r, cache, by_c) for r in results]
         v = ctx.judge("History_Trace", cases, name=name, stateful=True, workers=2, parallel=2)
         handle(ctx, results, cases, v, name)
-        return results, cases
+        return cases
 
-    results, cases = replay(hists, 1, "histories_1_thread")
+    nsub = ctx.pick(8, 64)
+    sub = hists[:nsub]
+    sub16 = hists[::-1][:nsub]
+    allh = hists + sub + sub16 + pair_hists
+    thr = [1] * len(hists) + [4] * len(sub) + [16] * len(sub16) + [1] * len(pair_hists)
+    cache, allres = run_all(ctx, [by_key[x] for x in used], ctx.pick(1, 2), allh, thr, by_key)
+    ctx.extra["distinct_calls_with_fresh_reference"] = len(cache)
+    n1, n4, n16 = len(hists), len(sub), len(sub16)
+    results = allres[:n1]
+    cases = judge(results, "histories_1_thread")
     for r, c in list(zip(results, cases))[:2]:
         ctx.sample({"threads": r["threads"], "history": [e["c"] for e in r["events"]][:8],
                     "digest_vs_fresh": [(e["digest"], e["fresh"]) for e in c["events"]][:4]})
-    nsub = ctx.pick(8, 64)
-    sub = hists[:nsub]
-    replay(sub, 4, "histories_4_threads")
-    replay(sub[::-1][:nsub], 16, "histories_16_threads")
+    judge(allres[n1:n1 + n4], "histories_4_threads")
+    judge(allres[n1 + n4:n1 + n4 + n16], "histories_16_threads")
     if pair_hists:
-        replay(pair_hists, 1, "all_ordered_pairs")
+        judge(allres[n1 + n4 + n16:], "all_ordered_pairs")
     ctx.extra["histories"] = {"simulated": len(hists), "depth": depth, "threads_4": len(sub), "threads_16": len(sub),
                               "exhaustive_pairs": len(pair_hists)}
+
+    keys = {}
+    for k, _cl, _p in ctx.violations:
+        keys[k] = keys.get(k, 0) + 1
+    ctx.extra["violation_keys"] = keys
 
     # selftest of the binding (thorough): a corrupted digest / a mutated default in a recorded trace must be rejected
     if ctx.tier == "thorough" or ctx.selftest:
